@@ -181,9 +181,43 @@ func (g *G) knownDirs() []string {
 	return out
 }
 
+// hasIgnorableExtInDir: a directory component carries an ignorable extension (kept out of the domain).
+func hasIgnorableExtInDir(p string) bool {
+	parts := strings.Split(p, "/")
+	for _, c := range parts[:len(parts)-1] {
+		for _, e := range IgnoreExts {
+			if strings.Contains(c, e) {
+				return true
+			}
+		}
+	}
+	return false
+}
+
 // NewPath draws a path for a new file: an existing directory (or the root, or
 // a new chain of sub-directories up to depth 4) plus a fresh component.
 func (g *G) NewPath() string {
+	// confusable sibling: next to an existing directory d (or file f) create d+suffix with a suffix
+	// that sorts between "d" and "d/" ('-', '.', ' ', '+', '(') or right after it ('0', '_', letters)
+	if g.Chance(22, "confusableSibling") {
+		var stems []string
+		for _, d := range g.knownDirs() {
+			if d != "" {
+				stems = append(stems, d)
+			}
+		}
+		for p := range g.E.H.PathsEver {
+			stems = append(stems, p)
+		}
+		sort.Strings(stems)
+		if len(stems) > 0 {
+			stem := g.Pick(stems, "stem")
+			p := stem + g.Pick([]string{"-x", ".c", " b", "+", "(1)", "0", "_", "s", ".", "-", "x"}, "sibSuffix")
+			if !strings.HasPrefix(p, ".goit") && !g.E.H.PathsEver[p] && g.pathUsable(p) && !hasIgnorableExtInDir(p) {
+				return p
+			}
+		}
+	}
 	for try := 0; try < 30; try++ {
 		dir := g.Pick(g.knownDirs(), "dir")
 		depth := strings.Count(dir, "/")
